@@ -153,6 +153,27 @@ func (q *Queue[T]) Purge() {
 	q.writeCount.Store(0)
 }
 
+// PurgeValues clears the queue and returns the removed values in one atomic step
+func (q *Queue[T]) PurgeValues() []any {
+	q.mx.Lock()
+	defer q.mx.Unlock()
+
+	values := make([]any, 0)
+	for chunk := q.readChunk; chunk != nil; chunk = chunk.Next {
+		for i := chunk.NextReadIndex; i < chunk.NextWriteIndex; i++ {
+			values = append(values, chunk.Data[i])
+		}
+	}
+
+	chunk := linkedbuffer.NewChunk[T](initialBufferCapacity)
+	q.readChunk = chunk
+	q.writeChunk = chunk
+	q.readCount.Store(0)
+	q.writeCount.Store(0)
+
+	return values
+}
+
 // Close releases resources and clears the queue
 func (q *Queue[T]) Close() error {
 	q.closed.Store(true)
